@@ -124,6 +124,9 @@ func (proj *Project) loadIndex() error {
 
 	for _, summary := range index.Targets {
 		l := summary.Label
+		if l == nil {
+			return fmt.Errorf("invalid index: target without a label")
+		}
 
 		info, err := proj.loadTargetInfo(l)
 		if err != nil {
